@@ -90,6 +90,7 @@ class Contract:
         self.abstract_round = bool(a.get("abstract_round", False))
         self.loop_vars = a.get("loop_vars", {})
         self.uses = a.get("uses", {})
+        self.assume_pre = a.get("assume_pre", {})  # callee target -> reason (listed in trusted_base)
         self.chain = bool(a.get("chain", False))
         self.scope = a.get("scope", None)  # e.g. "finite: lengths 0..3" -> not counted as proved
         self.dep = bool(deco_kw.get("dep", False))
@@ -103,16 +104,21 @@ class Contract:
         ip.pure += 1
         try:
             for i, r in enumerate(self.requires):
-                t = ip.truth(call_clause(ip, r, argv))
+                t = ip.truth(bool_clause(ip, r, argv))
                 if t is not True:
-                    ip.obligations.append((f"call-pre:{self.target}#{i}", list(ip.pc), to_bool_term(t)))
+                    top = getattr(ip, "top_contract", None)
+                    if top is not None and self.target in top.assume_pre:
+                        ip.assume(to_bool_term(t))
+                        ip.used_contracts.add(f"assumed-precondition:{self.target}:{top.assume_pre[self.target]}")
+                    else:
+                        ip.obligations.append((f"call-pre:{self.target}#{i}", list(ip.pc), to_bool_term(t)))
         finally:
             ip.pure -= 1
         # error outcomes
         for exc, cond in self.raises.items():
             ip.pure += 1
             try:
-                c = ip.truth(call_clause(ip, cond, argv))
+                c = ip.truth(bool_clause(ip, cond, argv))
             finally:
                 ip.pure -= 1
             if ip.branch(c):
@@ -132,9 +138,12 @@ class Contract:
         try:
             av = dict(argv)
             av["result"] = res
+            av["old"] = I.NS(**argv)  # modular use is only offered for functions that leave their arguments alone
             ens = self.modular_ensures if self.modular_ensures is not None else self.ensures
             for nm, cl in ens.items():
-                t = ip.truth(call_clause(ip, cl, av))
+                t = ip.truth(bool_clause(ip, cl, av))
+                if t is False:
+                    raise EngineError(f"modular use of {self.target}: clause {nm!r} is false for the result template (inconsistent contract)")
                 ip.assume(to_bool_term(t) if not isinstance(t, bool) else t)
         finally:
             ip.pure -= 1
@@ -155,6 +164,20 @@ def argv_subset(fn, argv):
 
 def call_clause(ip, fn, argv):
     """call a contract lambda with the subset of named values it asks for"""
+    r = _call_clause(ip, fn, argv)
+    if isinstance(r, (tuple, list, dict)) and not isinstance(fn, I.FuncV) is False and getattr(fn, "name", "") == "<lambda>" and isinstance(r, tuple) and len(r) == 1:
+        raise EngineError(f"contract clause {fn.qualname} evaluates to a 1-tuple (stray trailing comma?)")
+    return r
+
+
+def bool_clause(ip, fn, argv):
+    r = call_clause(ip, fn, argv)
+    if not (isinstance(r, bool) or (isinstance(r, Sym) and r.sort == "bool")):
+        raise EngineError(f"contract clause {getattr(fn, 'qualname', fn)} is not boolean: {r!r}")
+    return r
+
+
+def _call_clause(ip, fn, argv):
     if not isinstance(fn, I.FuncV):
         return fn
     a = fn.node.args
@@ -490,6 +513,21 @@ def witness_term(world, c, kf, args):
     return to_bool_term(t)
 
 
+def snapshot(v):
+    """copy of the mutable parts of an input (for `old` in postconditions)"""
+    if isinstance(v, Rec) and v.mutable:
+        return Rec(v.cls, {k: snapshot(x) for k, x in v.f.items()}, True)
+    if isinstance(v, (MapV, PredSetV)):
+        return v.snapshot()
+    if isinstance(v, I.NS):
+        return I.NS(**{k: snapshot(x) for k, x in v.__dict__.items()})
+    if isinstance(v, list):
+        return list(v)
+    if isinstance(v, dict):
+        return dict(v)
+    return v
+
+
 def _positional(func, argv):
     a = func.node.args
     names = [p.arg for p in a.posonlyargs + a.args]
@@ -497,6 +535,8 @@ def _positional(func, argv):
     kw = {}
     for k, v in argv.items():
         if a.vararg and k == a.vararg.arg:
+            continue
+        if k == "old":
             continue
         kw[k] = v
     args = []
@@ -551,10 +591,11 @@ def verify_contract(world, c, tier="quick", loop_support=None, known=None, only_
             ip.inputs.update({"free." + k: v for k, v in free.items()})
             allv = dict(argv)
             allv.update(free)
+            allv["old"] = I.NS(**{k: snapshot(v) for k, v in allv.items()})
             ip.pure += 1
             try:
                 for r in c.requires:
-                    t = ip.truth(call_clause(ip, r, allv))
+                    t = ip.truth(bool_clause(ip, r, allv))
                     ip.assume(to_bool_term(t) if not isinstance(t, bool) else t)
             finally:
                 ip.pure -= 1
@@ -564,11 +605,11 @@ def verify_contract(world, c, tier="quick", loop_support=None, known=None, only_
                     # `have` steps first: proved in order, then assumed
                     res_obls = []
                     for hn, hf in c.have.items():
-                        t = ip.truth(call_clause(ip, hf, allv))
+                        t = ip.truth(bool_clause(ip, hf, allv))
                         tt = to_bool_term(t)
                         res_obls.append((f"have:{hn}", list(ip.pc), tt))
                         ip.assume(tt)
-                    t = ip.truth(call_clause(ip, c.statement, allv))
+                    t = ip.truth(bool_clause(ip, c.statement, allv))
                 finally:
                     ip.pure -= 1
                 ip.obligations.extend(res_obls)
@@ -578,6 +619,7 @@ def verify_contract(world, c, tier="quick", loop_support=None, known=None, only_
             if c.free:
                 f = resolve_function(world, ip, c.target, free)
             ip.top_func = f
+            ip.top_contract = c
             ip.abstract_round = c.abstract_round
             if loop_support is not None:
                 loop_support.install(ip, c, f, allv)
@@ -628,13 +670,22 @@ def verify_contract(world, c, tier="quick", loop_support=None, known=None, only_
                 av["result"] = pr.value
                 proved_so_far = []
                 for nm, cl in c.ensures.items():
-                    t = ipc.truth(call_clause(ipc, cl, av))
+                    note = None
+                    try:
+                        t = ipc.truth(bool_clause(ipc, cl, av))
+                    except PyRaise as e_:
+                        if e_.exc.cls_name in ("KeyError", "IndexError") and "calls" in [p_.arg for p_ in cl.node.args.args]:
+                            # the clause names a call (ghost witness) that did not happen on
+                            # this path: the expected structure is gone -> the clause fails
+                            t, note = False, f"clause refers to a call that did not happen on this path: {e_.exc!r}"
+                        else:
+                            raise
                     hints = lemma_instances(world, ipc, c, nm, av)
                     goal = to_bool_term(t)
                     obls.append(Obl(f"post:{nm}@{ptag}", pr.pc + ipc.pc[len(pr.pc):] + hints + (proved_so_far if c.chain else []), goal, "post", k, pr.args, {"result": pr.value}))
                     proved_so_far = proved_so_far + [goal]
                 for exc, cond in c.raises.items():
-                    t = ipc.truth(call_clause(ipc, cond, pr.args))
+                    t = ipc.truth(bool_clause(ipc, cond, pr.args))
                     obls.append(Obl(f"raises:{exc}-if@{ptag}", pr.pc, to_bool_term(b_not(t)), "raises", k, pr.args, {"result": pr.value}))
             else:
                 covers["raises"] += 1
@@ -644,7 +695,7 @@ def verify_contract(world, c, tier="quick", loop_support=None, known=None, only_
                     if I.exc_isa(exc, e2):
                         matched = e2
                 if matched is not None:
-                    t = ipc.truth(call_clause(ipc, c.raises[matched], pr.args))
+                    t = ipc.truth(bool_clause(ipc, c.raises[matched], pr.args))
                     obls.append(Obl(f"raises:{matched}-only-if@{ptag}", pr.pc, to_bool_term(t), "raises", k, pr.args, {"raised": exc}))
                 elif any(I.exc_isa(exc, e2) for e2 in c.may_raise):
                     pass
@@ -678,7 +729,7 @@ def verify_contract(world, c, tier="quick", loop_support=None, known=None, only_
                 rec["time"] = round(rec["time"] + r2["time"], 4)
                 if r2["verdict"] == "unsat":
                     # every counterexample lies inside the recorded witness class
-                    rec.update({"verdict": "unsat", "backend": r2["backend"], "known": {"id": kf["id"], "description": kf["description"]}, "known_witness_model": {k: S.to_json(v, r["model"]) for k, v in (o.inputs or {}).items() if k != "calls"}})
+                    rec.update({"verdict": "unsat", "backend": r2["backend"], "known": {"id": kf["id"], "description": kf["description"]}, "known_witness_model": {k: S.to_json(v, r["model"]) for k, v in (o.inputs or {}).items() if k not in ("calls", "old")}})
                     r = r2
                 else:
                     r = r2
@@ -687,7 +738,7 @@ def verify_contract(world, c, tier="quick", loop_support=None, known=None, only_
                 break
         if r["verdict"] == "sat" and "model" in r:
             try:
-                rec["model_args"] = {k: S.to_json(v, r["model"]) for k, v in (o.inputs or {}).items() if k != "calls"}
+                rec["model_args"] = {k: S.to_json(v, r["model"]) for k, v in (o.inputs or {}).items() if k not in ("calls", "old")}
                 for ek, ev in o.extra.items():
                     rec["model_" + ek] = S.to_json(ev, r["model"]) if not isinstance(ev, str) else ev
             except Exception as e:  # model printing must never hide a verdict
